@@ -16,9 +16,10 @@ type LimitM struct {
 	N      int    `json:"n"`
 	Prefix string `json:"prefix"` // typed prefix ("" or a prefix of the generated names)
 	Ext    bool   `json:"ext,omitempty"` // body kinds: count and for_each extensions enabled (two more candidates)
+	Hooks  int    `json:"hooks,omitempty"` // hooks+funcs, hooks+targets: number of candidates the completion hook returns
 }
 
-var limitKinds = []string{"body-attrs", "body-blocks", "labels", "funcs", "object-attrs", "targets", "hooks"}
+var limitKinds = []string{"body-attrs", "body-blocks", "labels", "funcs", "object-attrs", "targets", "hooks", "hooks+funcs", "hooks+targets"}
 
 func limitName(i int) string { return fmt.Sprintf("n%03d", i) }
 
@@ -58,7 +59,7 @@ func limitWorld(l LimitM) (w m.WorldM, file string, cursor int, population int, 
 		root.Blocks = map[string]m.BlockM{"res": bl}
 		text = `res "` + l.Prefix + `" {` + "\n}\n"
 		cursor = len(`res "`) + len(l.Prefix)
-	case "funcs":
+	case "funcs", "hooks+funcs":
 		root.Attrs = map[string]m.AttrM{"x": {Flag: "optional", Cons: str}}
 		p.Funcs = map[string]m.FuncM{}
 		for i := 0; i < l.N; i++ {
@@ -76,7 +77,7 @@ func limitWorld(l LimitM) (w m.WorldM, file string, cursor int, population int, 
 		text = "o = {\n  " + l.Prefix
 		cursor = len(text)
 		text += "\n}\n"
-	case "targets":
+	case "targets", "hooks+targets":
 		root.Attrs = map[string]m.AttrM{"x": {Flag: "optional", Cons: m.ConsM{K: "ref", Scope: "var"}}}
 		root.Blocks = map[string]m.BlockM{"var": {
 			Labels: []m.LabelM{{Name: "name"}}, Body: &m.BodyM{},
@@ -105,6 +106,17 @@ func limitWorld(l LimitM) (w m.WorldM, file string, cursor int, population int, 
 		text += "\n"
 		population = l.N
 	}
+	if l.Kind == "hooks+funcs" || l.Kind == "hooks+targets" {
+		// two sources feed one list: the hook's candidates and the constraint's own
+		hooks = true
+		population += l.Hooks
+		a := root.Attrs["x"]
+		a.Hooks = []string{"hn"}
+		if l.Kind == "hooks+targets" {
+			a.Cons = m.ConsM{K: "any", Ty: m.TyOf(cty.String)}
+		}
+		root.Attrs["x"] = a
+	}
 	if l.Ext && (l.Kind == "body-attrs" || l.Kind == "body-blocks") {
 		root.Ext = &m.ExtM{Count: true, ForEach: true}
 		if l.Prefix == "" {
@@ -116,6 +128,9 @@ func limitWorld(l LimitM) (w m.WorldM, file string, cursor int, population int, 
 	w = m.WorldM{Paths: []m.PathM{p}}
 	if l.Kind == "hooks" {
 		w.Ctx.Hooks = map[string]m.HookM{"hn": {N: l.N}}
+	}
+	if l.Kind == "hooks+funcs" || l.Kind == "hooks+targets" {
+		w.Ctx.Hooks = map[string]m.HookM{"hn": {N: l.Hooks}}
 	}
 	return w, "main.tf", cursor, population, hooks
 }
